@@ -138,7 +138,7 @@ def property_theorems(pid: str) -> list[str]:
         if m and stack and stack[-1] == m.group(1):
             stack.pop()
             continue
-        m = re.match(r"^\s*(?:@\[[^\]]*\]\s*)?(?:private\s+|protected\s+)?theorem\s+([A-Za-z_][A-Za-z0-9_'.]*)", line)
+        m = re.match(r"^\s*(?:@\[[^\]]*\]\s*)?(?:private\s+|protected\s+)?theorem\s+([^\s:({\[]+)", line)
         if m:
             names.append(".".join(stack + [m.group(1)]))
     return names
@@ -424,6 +424,9 @@ def setup_paths():
         if importlib.util.find_spec(pkg) is None:
             if str(STUBS) not in sys.path:
                 sys.path.append(str(STUBS))
+    ep = str(VERIF / "harness" / "ep")
+    if ep not in sys.path:
+        sys.path.append(ep)          # entry-point stub proposal (`flow_backend="verifstub"`)
     os.environ.setdefault("ASPIRE_VERIF", "1")
     import logging
     import warnings
